@@ -39,18 +39,20 @@ from pyrtma.utils.quicklogger_reader import QLFileHeader, QLReader
 PROP = "C17"
 
 RULE = (
-    "Hypothesis draws 1-3 data sets (formatter raw/json/quicklogger; selection = ALL or a subset of 5 core message "
+    "Hypothesis draws 0-3 data sets in generated order (mostly 2-3; formatter raw/json/quicklogger; selection = ALL or a subset of 5 core message "
     "types; continuous or 30 s subdivision), a history of update(msg|None) with clock steps dt in {0,1,16,31} s "
     "(flush period 15 s, subdivision 30 s, both read from the code), pause/resume, restart (stop, metadata update, "
     "start of the next recording of the same collection), a final stop, and a schedule tape; the real DataCollection/DataSet/formatters run under a cooperative scheduler that owns every "
-    "Event/Thread operation of the recording and the writer thread, with a virtual clock. After stop()+close() the "
+    "Event/Thread operation of the recording and the writer thread, with a virtual clock. Immediately after every "
+    "stop() - before close(), the next start() or garbage collection could flush anything, all objects still "
+    "referenced - and once more after close(), the "
     "files of each data set are read back in subdivision order (raw: frame parser; json: Message.from_json per "
     "line; quicklogger: QLReader.load) and compared with the selected messages handed over while recording and not "
     "paused, per recording. A thread can be preempted immediately before AND immediately after each of its "
     "Event/Thread operations (the plain code between two operations runs with the earlier or with the later one, by "
     "choice of the tape). Additionally schedules of small histories are enumerated depth-first with sleep-set "
     "reduction (an operation and a plain-code block of different threads commute): all schedules with any number "
-    "of preemptions before operations and at most b preemptions taken immediately after an operation. Quick: 9 fixed "
+    "of preemptions before operations and at most b preemptions taken immediately after an operation. Quick: 11 fixed "
     "histories (b=1, <=3000 schedules each) plus 16 Hypothesis-drawn histories with two flush deadlines (b=1, <=1000 "
     "each). Thorough: the fixed histories with b=1 and b=2, every history of <=4 updates with <=2 flush deadlines "
     "(with and without one pause/resume pair) with b=0 over a raw+json+quicklogger collection, continuous and "
@@ -337,6 +339,38 @@ def run_case(datasets, history, tape, want_log=False, sleep_sets=False, max_afte
         expected = [[[] for _ in datasets]]
         dontcare = [set() for _ in datasets]
         frames = {}
+        defs_path = os.path.join(tmp, "c17_qldefs.py")
+
+        def check_run(run_no, when, final):
+            """The oracle on the files of one recording, as they are on disk now.  -> Violation | None"""
+            exp_run = expected[run_no]
+            for i, d in enumerate(datasets):
+                fmt = d["fmt"]
+                ext = get_formatter(fmt).ext
+                files = _files_in_order(os.path.join(tmp, "rec", f"ds{i}"), f"f{i}r{run_no}", ext)
+                if final:
+                    info.n_sub_files += max(0, len(files) - 1)
+                    info.n_expected += len(exp_run[i])
+                tag = f"data set {i} of {len(datasets)} ({fmt}), recording {run_no}, files read {when}"
+                if not files:
+                    return Violation(f"corrupt/{fmt}", f"{tag}: no output file", None)
+                got = []
+                try:
+                    for p in files:
+                        if fmt == "quicklogger":
+                            if not os.path.exists(defs_path):
+                                open(defs_path, "w").close()
+                            got.extend(_read_ql(p, defs_path))
+                        else:
+                            got.extend(READERS[fmt](p))
+                except _Corrupt as c:
+                    return Violation(f"corrupt/{fmt}", f"{tag}: {c}", None)
+                v = _compare(tag, fmt, got, exp_run[i], dontcare[i], frames, len(files), _dropped_stage(sched.log))
+                if v is not None:
+                    return v
+            return None
+
+        early = None  # violation seen on the files right after a stop()
         where = "setup"
         try:
             md.update(json.dumps({"run": 0}))
@@ -389,6 +423,10 @@ def run_case(datasets, history, tape, want_log=False, sleep_sets=False, max_afte
                     # stop this recording, new metadata (as DATA_LOGGER_METADATA_UPDATE does), start the next one
                     where = "stop"
                     coll.stop()
+                    # "after stop the files are complete": observed now, before start()/close()/gc can flush anything
+                    early = check_run(len(expected) - 1, "right after stop()", False)
+                    if early is not None:
+                        break
                     sched.progress()
                     md.update(json.dumps({"run": len(expected)}))
                     expected.append([[] for _ in datasets])
@@ -399,12 +437,15 @@ def run_case(datasets, history, tape, want_log=False, sleep_sets=False, max_afte
                     info.restarts += 1
                 else:
                     raise HarnessError(f"unknown history op {op!r}")
-            where = "stop"
-            sched.progress()
-            coll.stop()
-            where = "close"
-            sched.progress()
-            coll.close()
+            if early is None:
+                where = "stop"
+                sched.progress()
+                coll.stop()
+                early = check_run(len(expected) - 1, "right after stop()", False)
+            if early is None:
+                where = "close"
+                sched.progress()
+                coll.close()
         except Deadlock as e:
             pending = Violation("deadlock", f"{e.kind} during {where}(): {e.what}", None)
         except HarnessError:
@@ -435,36 +476,12 @@ def run_case(datasets, history, tape, want_log=False, sleep_sets=False, max_afte
         if want_log:
             info.log = [list(map(str, e)) for e in sched.log]
 
-        # ---- oracle on the files
+        # ---- second observation point: every recording once more, after close()
         if pending is None:
-            defs_path = os.path.join(tmp, "c17_qldefs.py")
-            for run_no, exp_run in enumerate(expected):
-                for i, d in enumerate(datasets):
-                    fmt = d["fmt"]
-                    ext = get_formatter(fmt).ext
-                    files = _files_in_order(os.path.join(tmp, "rec", f"ds{i}"), f"f{i}r{run_no}", ext)
-                    info.n_sub_files += max(0, len(files) - 1)
-                    info.n_expected += len(exp_run[i])
-                    tag = f"data set {i} ({fmt}), recording {run_no}"
-                    if not files:
-                        pending = Violation(f"corrupt/{fmt}", f"{tag}: no output file after stop()", None)
-                        break
-                    got = []
-                    try:
-                        for p in files:
-                            if fmt == "quicklogger":
-                                if not os.path.exists(defs_path):
-                                    open(defs_path, "w").close()
-                                got.extend(_read_ql(p, defs_path))
-                            else:
-                                got.extend(READERS[fmt](p))
-                    except _Corrupt as c:
-                        pending = Violation(f"corrupt/{fmt}", f"{tag}: {c}", None)
-                        break
-                    pending = _compare(tag, fmt, got, exp_run[i], dontcare[i], frames, len(files),
-                                       _dropped_stage(sched.log))
-                    if pending is not None:
-                        break
+            pending = early
+        if pending is None:
+            for run_no in range(len(expected)):
+                pending = check_run(run_no, "after close()", True)
                 if pending is not None:
                     break
     finally:
@@ -555,7 +572,9 @@ def datasets_strategy():
         ),
         "subdiv": st.sampled_from((0, 0, SUBDIV)),
     })
-    return st.lists(one, min_size=1, max_size=3)
+    # sizes drawn explicitly: mostly 2-3 data sets (each formatter also in a non-last position), rarely none
+    sizes = st.sampled_from((3, 2, 3, 2, 1, 2, 3, 0))
+    return sizes.flatmap(lambda n: st.lists(one, min_size=n, max_size=n))
 
 
 def _op_strategy(dts, weights=(9, 1, 1, 1)):
@@ -667,6 +686,8 @@ FIXED_DFS = [
     ([{"fmt": "json", "types": "ALL", "subdiv": 0}], [["u", 1, 16], ["u", -1, 16], ["u", 2, 1]]),
     (_RAW, [["u", 0, 16]]),
     (_RAW, []),
+    ([], [["u", 1, 16]]),
+    (list(reversed(_ALL3)), [["u", 1, 16], ["u", 2, 1]]),
     (_RAW, [["u", 1, 16], ["restart", 0], ["u", 2, 16]]),
     ([{"fmt": "quicklogger", "types": "ALL", "subdiv": 0}], [["u", 1, 16], ["u", 2, 16], ["restart", 0], ["u", 3, 1]]),
 ]
